@@ -9,6 +9,7 @@ import (
 	"bytes"
 	"encoding/json"
 	"fmt"
+	"runtime"
 	"runtime/debug"
 	"sort"
 	"strconv"
@@ -90,11 +91,15 @@ type c14TableCfg struct {
 	BadKinds []int    `json:"bad"`
 }
 
+// Depth bounds: 16 is "until the state space closes" (the scaled table has finitely many states;
+// BFS stops when a level adds no new state) or the deadline, whichever comes first.
 var c14TableCfgs = []c14TableCfg{
-	{Name: "full-direct", Srcs: []uint16{0, 1}, IDs: []uint8{1, 2, 3}, Totals: []uint8{2, 3}, Tick: "direct", DepthQ: 6, DepthT: 8, BadKinds: []int{0, 1, 2, 3, 4}},
-	{Name: "full-loop", Srcs: []uint16{0, 1}, IDs: []uint8{1, 2, 3}, Totals: []uint8{2, 3}, Tick: "loop", DepthQ: 6, DepthT: 8, BadKinds: []int{3}},
-	{Name: "total2-direct", Srcs: []uint16{0, 1}, IDs: []uint8{1, 2, 3}, Totals: []uint8{2}, Tick: "direct", DepthQ: 8, DepthT: 10, BadKinds: []int{3}},
-	{Name: "total3-direct", Srcs: []uint16{0, 1}, IDs: []uint8{1, 2}, Totals: []uint8{3}, Tick: "direct", DepthQ: 8, DepthT: 10, BadKinds: []int{3}},
+	{Name: "full-direct", Srcs: []uint16{0, 1}, IDs: []uint8{1, 2, 3}, Totals: []uint8{2, 3}, Tick: "direct", DepthQ: 5, DepthT: 16, BadKinds: []int{3}},
+	{Name: "full-loop", Srcs: []uint16{0, 1}, IDs: []uint8{1, 2, 3}, Totals: []uint8{2, 3}, Tick: "loop", DepthQ: 5, DepthT: 16, BadKinds: []int{3}},
+	{Name: "ids12-direct", Srcs: []uint16{0, 1}, IDs: []uint8{1, 2}, Totals: []uint8{2, 3}, Tick: "direct", DepthQ: 6, DepthT: 16, BadKinds: []int{4}},
+	{Name: "total3-direct", Srcs: []uint16{0, 1}, IDs: []uint8{1, 2}, Totals: []uint8{3}, Tick: "direct", DepthQ: 16, DepthT: 16, BadKinds: []int{0}},
+	{Name: "total2-direct", Srcs: []uint16{0, 1}, IDs: []uint8{1, 2, 3}, Totals: []uint8{2}, Tick: "direct", DepthQ: 16, DepthT: 16, BadKinds: []int{0, 1, 2, 3, 4}},
+	{Name: "total2-loop", Srcs: []uint16{0, 1}, IDs: []uint8{1, 2, 3}, Totals: []uint8{2}, Tick: "loop", DepthQ: 16, DepthT: 16, BadKinds: []int{3}},
 }
 
 func (c *c14TableCfg) ops() []c14Op {
@@ -471,6 +476,7 @@ func c14ClauseHead(clause string) string {
 func c14TableEnumerate(sh *evidence.Shard) {
 	env := sh.Env()
 	_ = debug.SetGCPercent
+	runtime.MemProfileRate = 0
 	for i := range c14TableCfgs {
 		cfg := &c14TableCfgs[i]
 		if !env.Mine(int64(i)) {
@@ -496,6 +502,9 @@ func c14TableEnumerate(sh *evidence.Shard) {
 			Probe:    func(s xstate.Sys[c14Op]) string { return s.(*c14TableSys).refKey },
 		}, p, env)
 		p.Count("depth_completed", int64(res.Depth))
+		if res.Violation == nil && p.Exhaustive && res.Depth < depth {
+			p.Note("state space closed: no new state at depth %d, every reachable state of this configuration was expanded (%d states)", res.Depth, res.States)
+		}
 		p.Class(cfg.Name, res.Depth, res.States)
 		if res.Violation != nil {
 			msg := res.Violation.Error()
